@@ -232,6 +232,13 @@ class Engine:
         raise Unsupported(f"SymSeq.{name}")
 
     def genexp_is_symbolic(self, it, g):
+        gi = g.node.generators[0].iter
+        if isinstance(gi, ast.Call) and isinstance(gi.func, ast.Name) and gi.func.id == "enumerate" and len(gi.args) == 1:
+            try:
+                src = it.as_symbolic_iterable(it.eval(gi.args[0], g.fr))
+            except Unsupported:
+                return False
+            return isinstance(src, SymSeq)
         try:
             src = it.eval(g.node.generators[0].iter, g.fr)
         except Unsupported:
@@ -317,6 +324,7 @@ class Engine:
         if k == "extobj":
             fields = {f: self.make_sym(ctx, sh, f"{name}.{f}") for f, sh in shape.fields.items()}
             fields["calls"] = ctx.alloc(HList([]))
+            fields["results"] = ctx.alloc(HList([]))
             fields["__methods__"] = shape.methods
             fields["__stream__"] = shape.stream
             return ctx.alloc(HObj("ext:" + shape.cls, fields))
@@ -945,7 +953,9 @@ class Engine:
                 rep.obligations.extend(ctx.obligations)
                 break
             except NeedFork:
-                rep.error = "internal: NeedFork escaped"
+                import traceback
+                rep.error = "internal: NeedFork escaped: " + " | ".join(
+                    l.strip() for l in traceback.format_exc().splitlines()[-14:] if l.strip().startswith("File"))[-900:]
                 break
             worklist.extend(ctx.new_forks)
             self.collect(rep, ctx, regimes)
@@ -1141,9 +1151,15 @@ class Engine:
             for p in parts[1:-1]:
                 if isinstance(cur, VRef) and isinstance(old_heap.get(cur.addr), HObj):
                     cur = old_heap[cur.addr].fields.get(p)
+                elif isinstance(cur, VRec):
+                    cur = cur.fields.get(p)
                 else:
                     ok = False
                     break
+            if ok and isinstance(cur, VRec) and len(parts) > 1:
+                # a field of an immutable record that refers to a mutable object
+                reach(cur.fields.get(parts[-1]))
+                continue
             if not ok or not isinstance(cur, VRef):
                 continue
             if len(parts) == 1:
